@@ -50,6 +50,19 @@ def gen(seed, tier):
             cases.append(G("C03-q%d-%d" % (df, k), fhex))
             if k == 0:
                 cases.append(H("C03-qh%d" % df, {}, [seg(0, [fhex]), seg(0, [g.any_frame(a)])]))
+    # lines whose length contradicts their format (two short replies glued, a long frame cut to 14 digits): not frames, no
+    # address may be attributed
+    for k in range(20 if tier == "quick" else 200):
+        a = r.choice(ICAOS)
+        glued = g.f_short(r.choice([0, 4, 5]), a) + g.f_short(r.choice([0, 4, 5]), a)
+        cut = g.f_long(r.choice([16, 20, 21]), a)[:14]
+        cases.append(G("C03-l%d" % k, r.choice([glued, cut, g.f_df17(a)[:14], g.f_df11(a) + g.f_df11(a)])))
+    # a line that is not text (invalid UTF-8) between frames of different aircraft, in one reader run: every frame after it
+    # is still attributed to its address
+    for k in range(8 if tier == "quick" else 80):
+        pool = r.sample(ICAOS, 4)
+        lines = [g.any_frame(pool[0]), r.choice([b"\xff\xfe\x80", b"\xc3\x28", b"8D\xff4840D6"])] + [g.any_frame(x) for x in pool[1:]]
+        cases.append(H("C03-xu%d" % k, {"U": 1} if k % 2 else {}, [seg(0, lines), seg(0, [g.any_frame(pool[0])])]))
     # zero address
     cases.append(G("C03-z0", hx(short_ap(4, 0, 12345), 56)))
     cases.append(G("C03-z1", hx(df17(0, 1 << 50), 112)))
